@@ -1,9 +1,114 @@
-import Gzx.Util
+import Gzx.Model.CheckDigit
+import Gzx.Ref.UPCEAN
 namespace Gzx.Driver.C10
-open Gzx
+open Gzx Gzx.CheckDigit
+
+def showR {α} (f : α → String) : Res α → String
+  | .ok a => f a
+  | .error (.panic _) => "PANIC"
+  | .error e => "ERR:" ++ e.tag
+
+/-- "0123" -> [0,1,2,3] (digit values); non-digits give none -/
+def digitVals? (s : String) : Option (List Nat) :=
+  if s == "-" then some [] else
+  s.toList.mapM (fun c => if '0' ≤ c ∧ c ≤ '9' then some (c.toNat - 48) else none)
+
+def flags (s : String) : List Bool := if s == "-" then [] else s.toList.map (· == '1')
+
+def showDigits (ds : List Nat) : String := String.ofList (ds.map (fun d => Char.ofNat (48 + d)))
+
+def kindOf? : String → Option EanKind
+  | "ean13" => some .ean13 | "ean8" => some .ean8 | "upca" => some .upca | "upce" => some .upce
+  | _ => none
+
+def showPatterns (ps : List (List Nat)) : String :=
+  ";".intercalate (ps.map showNatList)
 
 /-- line-protocol handler of suite `c10` (arguments after the suite name) -/
 def handle : List String → String
+  | ["eansum", hex] =>
+    match parseHex? hex with
+    | some bs => showR (fun (c : Int) => s!"ok {c}") (eanChecksumB bs)
+    | none => "bad-op"
+  | ["eancheck", hex] =>
+    match parseHex? hex with
+    | some bs => showR (fun (b : Bool) => toString b) (checkStandardB bs)
+    | none => "bad-op"
+  | ["expand", hex] =>
+    match parseHex? hex with
+    | some bs => showR showHex (convertUPCEtoUPCA bs)
+    | none => "bad-op"
+  | ["suppress", hex] =>
+    match parseHex? hex with
+    | some bs => (match suppress bs with | some e => showHex e | none => "none")
+    | none => "bad-op"
+  | ["canon", hex] =>
+    match parseHex? hex with
+    | some bs => toString (canonicalUPCE bs)
+    | none => "bad-op"
+  | ["wr", kind, hex] =>
+    match kindOf? kind, parseHex? hex with
+    | some k, some bs => showR (fun full => "ok " ++ showHex full) (writerContents k bs)
+    | _, _ => "bad-op"
+  | ["lg"] => showPatterns Ref.UPCEAN.lAndGPatterns
+  | ["upceread", ds, gs] =>
+    match digitVals? ds with
+    | some ds => showR (fun s => "ok " ++ showHex s) (upceSymbolRead Ref.UPCEAN.upceParity (ds.zip (flags gs)))
+    | none => "bad-op"
+  | ["ean13read", ds, gs, rs] =>
+    match digitVals? ds, digitVals? rs with
+    | some ds, some rs =>
+      showR (fun s => "ok " ++ showHex s) (ean13SymbolRead Ref.UPCEAN.ean13FirstDigit (ds.zip (flags gs)) rs)
+    | _, _ => "bad-op"
+  | ["upcaread", ds, gs, rs] =>
+    match digitVals? ds, digitVals? rs with
+    | some ds, some rs =>
+      showR (fun s => "ok " ++ showHex s) (upcaSymbolRead Ref.UPCEAN.ean13FirstDigit (ds.zip (flags gs)) rs)
+    | _, _ => "bad-op"
+  | ["ean8read", ds] =>
+    match digitVals? ds with
+    | some ds => showR (fun s => "ok " ++ showHex s) (ean8SymbolRead ds)
+    | none => "bad-op"
+  | ["c128chk", codes] =>
+    match parseNatList? codes with
+    | some (st :: data) => toString (c128Check st data)
+    | _ => "bad-op"
+  | ["c128wsum", idxs, moved] =>
+    match parseNatList? idxs with
+    | some is => toString (c128WriterSum (is.zip (flags moved)) 0 1)
+    | none => "bad-op"
+  | ["c128acc", codes] =>
+    match parseNatList? codes with
+    | some (st :: cs) => toString (c128ReaderAccept st cs)
+    | _ => "bad-op"
+  | ["c93idx", vals, maxw] =>
+    match parseNatList? vals, parseNat? maxw with
+    | some vs, some m => toString (c93Check m vs)
+    | _, _ => "bad-op"
+  | ["c93chk", vals] =>
+    match parseNatList? vals with
+    | some vs => let (c, k) := c93Checks vs; s!"{c},{k}"
+    | none => "bad-op"
+  | ["c93acc", vals] =>
+    match parseNatList? vals with
+    | some vs => showR (fun (b : Bool) => toString b) (c93ReaderAccept vs)
+    | none => "bad-op"
+  | ["c39chk", vals] =>
+    match parseNatList? vals with
+    | some vs => toString (c39Check vs)
+    | none => "bad-op"
+  | ["ext5sum", ds] =>
+    match digitVals? ds with
+    | some ds => toString (ext5Checksum ds)
+    | none => "bad-op"
+  | ["ext", ds, gs] =>
+    match digitVals? ds with
+    | some ds => showR (fun t => "ok " ++ showDigits t) (extDecode Ref.UPCEAN.ean5CheckDigit (ds.zip (flags gs)))
+    | none => "bad-op"
+  | ["tbl", "ean13parity"] => showNatList Ref.UPCEAN.ean13FirstDigit
+  | ["tbl", "upceparity"] => showPatterns Ref.UPCEAN.upceParity
+  | ["tbl", "ean5parity"] => showNatList Ref.UPCEAN.ean5CheckDigit
+  | ["tbl", "seta"] => ",".intercalate Ref.UPCEAN.setA
   | _ => "bad-op"
 
 end Gzx.Driver.C10
